@@ -10,8 +10,8 @@ PROPS = {
     "C01": dict(
         mc=["MC_NameWire"],
         never_ok=["OOBRead"],
-        gen=[dict(module="Gen_RData", cfg="Gen_RData.cfg", out="rdata_cases.ndjson"),
-             dict(module="Gen_Framing", cfg="Gen_Framing.cfg", out="framing_cases.ndjson")],
+        gen=[dict(module="Gen_RData", cfg="Gen_RData.cfg", cfg_thorough="Gen_RData_thorough.cfg", out="rdata_cases.ndjson"),
+             dict(module="Gen_Framing", cfg="Gen_Framing.cfg", cfg_thorough="Gen_Framing_thorough.cfg", out="framing_cases.ndjson")],
         topic="hostile",
         rules=["NoPanic", "NoHang", "HeapBound", "PeekTotal"],
         shards=14,
@@ -42,7 +42,7 @@ PROPS = {
         rules=["NoPanic", "SinkErr", "SinkSame", "BuildOk", "PlainCanonical", "CompDecodes"],
     ),
     "C05": dict(
-        gen=[dict(module="Gen_Framing", cfg="Gen_Framing.cfg", out="framing_cases.ndjson")],
+        gen=[dict(module="Gen_Framing", cfg="Gen_Framing.cfg", cfg_thorough="Gen_Framing_thorough.cfg", out="framing_cases.ndjson")],
         topic="framing",
         rules=["NoPanic", "EnvelopeErr", "ParseEqRef"],
         shards=12,
@@ -72,16 +72,16 @@ PROPS = {
         shards=12,
     ),
     "C10": dict(
-        gen=[dict(module="Gen_RData", cfg="Gen_RData.cfg", out="rdata_cases.ndjson")],
+        gen=[dict(module="Gen_RData", cfg="Gen_RData.cfg", cfg_thorough="Gen_RData_thorough.cfg", out="rdata_cases.ndjson")],
         topic="rdata",
         rules=["NoPanic", "EnvelopeErr", "ParseEqRef", "MustAccept", "BuildOk", "PlainCanonical"],
         shards=12,
     ),
     "C11": dict(
-        gen=[dict(module="Gen_RData", cfg="Gen_RData.cfg", out="rdata_cases.ndjson"),
-             dict(module="Gen_Framing", cfg="Gen_Framing.cfg", out="framing_cases.ndjson"),
+        gen=[dict(module="Gen_RData", cfg="Gen_RData.cfg", cfg_thorough="Gen_RData_thorough.cfg", out="rdata_cases.ndjson"),
+             dict(module="Gen_Framing", cfg="Gen_Framing.cfg", cfg_thorough="Gen_Framing_thorough.cfg", out="framing_cases.ndjson"),
              dict(module="Gen_Edns", cfg="Gen_Edns.cfg", out="edns_cases.ndjson"),
-             dict(module="Gen_Inspect", cfg="Gen_Inspect.cfg", out="inspect_cases.ndjson"),
+             dict(module="Gen_Inspect", cfg="Gen_Inspect.cfg", cfg_thorough="Gen_Inspect_thorough.cfg", out="inspect_cases.ndjson"),
              dict(module="Gen_Compress", cfg="Gen_Compress1.cfg", out="layouts1.ndjson"),
              dict(module="Gen_Compress", cfg="Gen_Compress2.cfg", out="layouts2.ndjson")],
         topic="reparse",
@@ -89,8 +89,8 @@ PROPS = {
         shards=14,
     ),
     "C12": dict(
-        gen=[dict(module="Gen_Inspect", cfg="Gen_Inspect.cfg", out="inspect_cases.ndjson"),
-             dict(module="Gen_RData", cfg="Gen_RData.cfg", out="rdata_cases.ndjson"),
+        gen=[dict(module="Gen_Inspect", cfg="Gen_Inspect.cfg", cfg_thorough="Gen_Inspect_thorough.cfg", out="inspect_cases.ndjson"),
+             dict(module="Gen_RData", cfg="Gen_RData.cfg", cfg_thorough="Gen_RData_thorough.cfg", out="rdata_cases.ndjson"),
              dict(module="Gen_Edns", cfg="Gen_Edns.cfg", out="edns_cases.ndjson")],
         topic="inspect",
         rules=["ObserverTotal"],
@@ -114,8 +114,8 @@ PROPS = {
     ),
     "C14": dict(
         mc=["MC_Mdns"],
-        gen=[dict(module="Gen_RData", cfg="Gen_RData.cfg", out="rdata_cases.ndjson"),
-             dict(module="Gen_Inspect", cfg="Gen_Inspect.cfg", out="inspect_cases.ndjson")],
+        gen=[dict(module="Gen_RData", cfg="Gen_RData.cfg", cfg_thorough="Gen_RData_thorough.cfg", out="rdata_cases.ndjson"),
+             dict(module="Gen_Inspect", cfg="Gen_Inspect.cfg", cfg_thorough="Gen_Inspect_thorough.cfg", out="inspect_cases.ndjson")],
         topic="datagram",
         rules=["LoopAlive", "LockClean", "ReplyParses"],
         shards=14,
